@@ -195,6 +195,21 @@ def run(rep, tier, seed):
                 if err:
                     rep.violations.append({'key': 'roundtrip', 'kind': 'expr', 'table': IT, 'tree': enc_expr(x), '_at': len(rep.trail) - 1,
                                            'recipe': recipe, 'text': str(x), 'what': '%s result: %s' % (producer, err)})
+    # sibling groups that are equal up to the order or repetition of their operands (boolean.py's == of AND / OR is set-based):
+    # each is written with its own operands in its own order
+    A_, B_, C_ = P('mit'), P('GPL 2.0'), P('zz yy')
+    for src in ([2, [[1, [A_, B_]], [1, [B_, A_]]]], [1, [[2, [A_, B_, A_]], [2, [B_, A_]]]], [2, [[1, [A_, B_, C_]], C_, [1, [C_, B_, A_]]]],
+                [1, [A_, [2, [[1, [B_, C_]], [1, [C_, B_]]]]]]):
+        for producer in ('parse', 'dedup'):
+            recipe = {'producer': producer, 'source': src}
+            x = produce(Li, recipe, le)
+            err = check_expr(Li, x, le)
+            rep.trail.append({'table': IT, 'tree': enc_expr(x)})
+            rep.case((repr(IT), str(x), producer, 'siblings'), nontrivial=True, sample=None)
+            rep.count('reordered_sibling_groups')
+            if err:
+                rep.violations.append({'key': 'roundtrip', 'kind': 'expr', 'table': IT, 'tree': enc_expr(x), '_at': len(rep.trail) - 1,
+                                       'recipe': recipe, 'text': str(x), 'what': '%s result: %s' % (producer, err)})
     res = run_model(model_reqs)
     for x, r in zip(model_meta, res):
         got = [enc_str(str(x)), enc_str(x.render_as_readable())]
